@@ -586,8 +586,12 @@ def run(model, col, tier):
         if isinstance(rv, ast.UnaryOp):
             continue
         conds = cond_atoms(evs, fm_env)
+        # (order comparisons are canonical: `a > b` is presented as `b < a`)
         lt = conds.get(f"len({pl}) < len(self.arguments)")
-        gt = conds.get(f"len({pl}) > len(self.arguments)")
+        gt = conds.get(f"len(self.arguments) < len({pl})", conds.get(f"len({pl}) > len(self.arguments)"))
+        eqc = conds.get(f"len({pl}) == len(self.arguments)", conds.get(f"len(self.arguments) == len({pl})"))
+        if eqc is True:
+            lt, gt = False, False
         if lt is None and gt is None:
             col.bad("R10.4", f"{TYPES}::Function.Match argument count", "a non-negative score can be returned without any comparison of the argument counts", TYPES, rv)
             continue
